@@ -48,10 +48,12 @@ Line == Trace[l]
 Is(e) == l <= Len(Trace) /\ Line.ev = e
 
 \* the C03 properties, required of the state reached by every line
-Holds == /\ (Dev = {} /\ (last'.a \in {"Rename", "Abort", "Skip", "Crash"} \/ pc' # "idle")) => Load(main') = ref'
-         /\ pc' \in {"writing", "synced", "closed"} /\ Dev = {} =>
-              \A i \in DOMAIN temp'.ents : temp'.ents[i][2] > 0 /\ temp'.ents[i][2] = idx'[temp'.ents[i][1]]
-         /\ pc' = "closed" => temp'.hdr = 2 /\ temp'.dur = Len(temp'.ents)
+Holds ==
+  Dev = {} =>
+    /\ (last'.a \in {"Rename", "Abort", "Skip", "Crash"} \/ pc' # "idle") => Load(main') = ref'
+    /\ pc' \in {"writing", "synced", "closed"} =>
+         \A i \in DOMAIN temp'.ents : temp'.ents[i][2] > 0 /\ temp'.ents[i][2] = idx'[temp'.ents[i][1]]
+    /\ pc' = "closed" => temp'.hdr = 2 /\ temp'.dur = Len(temp'.ents)
 
 \* what the driver observed on the real files agrees with the spec's files
 Observed ==
@@ -104,7 +106,8 @@ TrDone ==
   /\ l' = l + 1 /\ UNCHANGED <<vars, mode, snap>>
 
 \* no behaviour explains this scenario: abandon it, resume at the next setup line
-GiveUp == mode = "run" /\ l <= Len(Trace) /\ Line.ev # "setup" /\ SetState(Blank) /\ mode' = "skip" /\ snap' = Blank /\ l' = l
+NoGiveUp == "TRACE_NOGIVEUP" \in DOMAIN IOEnv /\ IOEnv.TRACE_NOGIVEUP = "1"   \* (debugging aid)
+GiveUp == ~NoGiveUp /\ mode = "run" /\ l <= Len(Trace) /\ Line.ev # "setup" /\ SetState(Blank) /\ mode' = "skip" /\ snap' = Blank /\ l' = l
 SkipLine == mode = "skip" /\ l <= Len(Trace) /\ Line.ev # "setup" /\ l' = l + 1 /\ UNCHANGED <<vars, mode, snap>>
 
 TraceNext ==
@@ -117,5 +120,6 @@ TraceSpec == TraceInit /\ [][TraceNext]_tvars
 \* the whole file was read (in one mode or the other)
 TraceComplete ==
   LET d == TLCGet("stats").diameter IN
-  IF d >= Len(Trace) THEN TRUE ELSE PrintT(<<"TRACE_INCOMPLETE", d, Len(Trace)>>) /\ FALSE
+  IF d >= Len(Trace) THEN TRUE
+  ELSE PrintT(<<"TRACE_INCOMPLETE", d, Len(Trace), IF d <= Len(Trace) THEN Trace[d] ELSE "end">>) /\ FALSE
 =============================================================================
